@@ -9,6 +9,9 @@ from pyvc import loader
 from pyvc.core import Refuted
 
 META = {
+    # not "proof": the property quantifies over operation histories; what is decided are per-operation contracts on closed
+    # instances / closed short histories, a bounded-exhaustive key grammar and syntactic frame analyses
+    "category": "other",
     "level_text": "This is a whole-history property; contracts reach its PER-OPERATION part, which is what makes the history "
                   "statement true: (1) make_key is injective on the argument shapes that occur at call sites: decided "
                   "exhaustively over a bounded grammar of Python values (ints, floats, strings, None, tuples, lists, dicts with "
@@ -187,8 +190,8 @@ def _unifiable(a, b):
 def _separation(chk):
     def th():
         sites = [s for s in _sites() if s["use"] == "lookup"]
-        if len(sites) < 30:
-            raise Refuted("call-site enumeration shrank", f"{len(sites)} make_key lookup sites found")
+        if len(sites) < 5:      # vacuity guard: the analysis found (almost) nothing to analyse - a checker error, not a verdict
+            raise RuntimeError(f"vacuous: only {len(sites)} make_key lookup sites found in services/*.py")
         by_module = {}
         for s in sites:
             by_module.setdefault(s["module"], []).append(s)
@@ -267,8 +270,8 @@ def _completeness(chk):
                     missing = sorted(p for p in used if p not in in_key and p not in PRESENTATION_ONLY)
                     if missing:
                         incomplete.append(f"{m}.py:{fn.lineno} {fn.name}: factory reads parameter(s) {missing} that are not in the key")
-        if n_sites < 20:
-            raise Refuted("get_or_create site enumeration shrank", str(n_sites))
+        if n_sites < 5:
+            raise RuntimeError(f"vacuous: only {n_sites} get_or_create sites found in services/*.py")
         if incomplete:
             raise Refuted("incomplete cache key: " + incomplete[0], "\n".join(incomplete), inputs={"sites": incomplete},
                           replay=_REPLAY_SCALE if "scale_factor" in incomplete[0] else None)
@@ -414,8 +417,8 @@ def _state_reads(site, tree):
 def _invalidation_frame(chk):
     def th():
         sites = _factory_sites(ORBIT_MODULES)
-        if len(sites) < 8:
-            raise Refuted("get_or_create site enumeration shrank", str(len(sites)))
+        if len(sites) < 3:
+            raise RuntimeError(f"vacuous: only {len(sites)} get_or_create sites found in the orbit-related services")
         bad = []
         n = 0
         for s in sites:
